@@ -5,6 +5,7 @@ import (
 	"sort"
 
 	sdkmath "cosmossdk.io/math"
+	storetypes "cosmossdk.io/store/types"
 	sdk "github.com/cosmos/cosmos-sdk/types"
 
 	"github.com/functionx/fx-core/v8/x/crosschain/types"
@@ -181,6 +182,11 @@ func (k Keeper) cleanupTimeOutBridgeCall(ctx sdk.Context) {
 		if data.Timeout > externalBlockHeight {
 			return true
 		}
+		// the external chain already reported the result of this call (observed, waiting to be executed):
+		// the result settles it, not the timeout
+		if k.hasPendingBridgeCallResult(ctx, data.Nonce) {
+			return false
+		}
 		// 1. handler bridge call refund
 		k.HandleOutgoingBridgeCallRefund(ctx, data)
 
@@ -188,6 +194,23 @@ func (k Keeper) cleanupTimeOutBridgeCall(ctx sdk.Context) {
 		k.DeleteOutgoingBridgeCallRecord(ctx, data.Nonce)
 		return false
 	})
+}
+
+// hasPendingBridgeCallResult reports whether an observed bridge call result for the outgoing bridge call nonce is parked for execution
+func (k Keeper) hasPendingBridgeCallResult(ctx sdk.Context, nonce uint64) bool {
+	store := ctx.KVStore(k.storeKey)
+	iter := storetypes.KVStorePrefixIterator(store, types.PendingExecuteClaimKey)
+	defer iter.Close()
+	for ; iter.Valid(); iter.Next() {
+		var claim types.ExternalClaim
+		if err := k.cdc.UnmarshalInterface(iter.Value(), &claim); err != nil {
+			panic(err)
+		}
+		if result, ok := claim.(*types.MsgBridgeCallResultClaim); ok && result.Nonce == nonce {
+			return true
+		}
+	}
+	return false
 }
 
 func (k Keeper) pruneOracleSet(ctx sdk.Context, signedOracleSetsWindow uint64) {
